@@ -508,6 +508,9 @@ where
             x_half - sigma * r
         };
         let f_itp = f(x_itp);
+        if f_itp.is_zero() {
+            return Ok(x_itp);
+        }
         if f_itp.is_sign_positive() {
             right = x_itp;
             f_right = f_itp;
